@@ -163,7 +163,9 @@ func corpus() []corpusCase {
 	add("Impl returns list(string) for list(dynamic)",
 		with(okScript([]pspec{P(tStr, "")}, nil), func(s *script) { s.retType, s.implVal = cty.List(cty.DynamicPseudoType), list(str("x")) }), str("a"))
 	add("Impl returns list(dynamic) unknown for list(string)",
-		with(okScript([]pspec{P(tStr, "")}, nil), func(s *script) { s.retType, s.implVal = cty.List(cty.String), cty.UnknownVal(cty.List(cty.DynamicPseudoType)) }), str("a"))
+		with(okScript([]pspec{P(tStr, "")}, nil), func(s *script) {
+			s.retType, s.implVal = cty.List(cty.String), cty.UnknownVal(cty.List(cty.DynamicPseudoType))
+		}), str("a"))
 	add("Impl returns NilVal", with(okScript([]pspec{P(tStr, "")}, nil), func(s *script) { s.implMode = imNil }), str("a"))
 	add("Impl returns NilVal, marks collected, refinement declared",
 		with(okScript([]pspec{P(tStr, "")}, nil), func(s *script) { s.implMode, s.refine = imNil, true }), str("a").Mark(m1))
